@@ -18,7 +18,7 @@ namespace TrRouting
     int   nodeDepartureTentativeTime      {MAX_INT};
     int   connectionDepartureTime         {-1};
     int   connectionArrivalTime           {-1};
-    short connectionMinWaitingTimeSeconds {-1};
+    int   connectionMinWaitingTimeSeconds {-1};
     //long long   footpathsRangeStart       {-1};
     //long long   footpathsRangeEnd         {-1};
     int   footpathIndex                   {-1};
@@ -209,7 +209,7 @@ namespace TrRouting
     int   nodeDepartureTentativeTime      {MAX_INT};
     int   connectionDepartureTime         {-1};
     int   connectionArrivalTime           {-1};
-    short connectionMinWaitingTimeSeconds {-1};
+    int   connectionMinWaitingTimeSeconds {-1};
     //long long   footpathsRangeStart       {-1};
     //long long   footpathsRangeEnd         {-1};
     int   footpathIndex                   {-1};
